@@ -214,6 +214,13 @@ class MatchV(V):
 
 
 @dataclass(frozen=True)
+class RegexObjV(V):
+    """re.compile(<const pattern>, flags)"""
+    pattern: str
+    flags: int = 0
+
+
+@dataclass(frozen=True)
 class Thunk(V):
     """unevaluated constructor argument (Cell fields are only evaluated when something reads them)"""
     node: object = field(compare=False, hash=False)
@@ -839,7 +846,11 @@ class Interp:
         if isinstance(base, FuncV):
             return Opaque(f'func.{name}')
         if isinstance(base, MatchV):
+            if base.level == 3:
+                return FuncV('bound', ('matchobj', name), base)
             return FuncV('bound', ('str', name), base)
+        if isinstance(base, RegexObjV):
+            return FuncV('bound', ('regexobj', name), base)
         if isinstance(base, NumV):
             raise SymRaise('AttributeError', node, f"number has no attribute '{name}'", where=self.where())
         if isinstance(base, Opaque):
@@ -937,6 +948,8 @@ class Interp:
                 if self.same(k, idx, node):
                     return v
             raise SymRaise('KeyError', node, f'key {idx!r}', where=self.where())
+        if isinstance(base, MatchV) and base.level == 3:
+            return self.match_obj_group(base, idx, node)
         if isinstance(base, MatchV):
             if base.level == 0:
                 return MatchV(base.pattern, base.subject, 1, base.flags)
@@ -1217,6 +1230,18 @@ class Interp:
                     flags = self.re_flags(fl, node)
                 return MatchV(ptxt, subj, 0, flags)
             return Opaque('re.findall(non-constant pattern)')
+        if name in ('re.compile', 're.match', 're.search', 're.fullmatch'):
+            pat = args[0] if args else kwargs.get('pattern')
+            ptxt = pat.value if isinstance(pat, Const) else (pat.text_only() if isinstance(pat, Code) else None)
+            if isinstance(ptxt, str):
+                k = 1 if name == 're.compile' else 2
+                fl = args[k] if len(args) > k else kwargs.get('flags')
+                flags = self.re_flags(fl, node) if fl is not None else 0
+                if name == 're.compile':
+                    return RegexObjV(ptxt, flags)
+                subj = args[1] if len(args) > 1 else kwargs.get('string')
+                return MatchV(ptxt, subj, 3, flags)
+            return Opaque(f'{name}(non-constant pattern)')
         if name.startswith('re.'):
             return Opaque(name)
         if short == 'column_index_from_string':
@@ -1384,7 +1409,35 @@ class Interp:
         return self.choose(('isinstance-opaque', self._nid(node)), [True, False])
 
     # methods of strings / sequences / token value / cells ----------------------------------------------------------
+    def match_obj_group(self, m: MatchV, idx, node) -> V:
+        """m[n] / m['name'] / m.group(n) of a match object of a constant pattern"""
+        rx = Regex(m.pattern, m.flags)
+        n = None
+        if isinstance(idx, Const) and isinstance(idx.value, int) and not isinstance(idx.value, bool):
+            n = idx.value
+        elif isinstance(idx, Const) and isinstance(idx.value, str):
+            n = rx.tree.state.groupdict.get(idx.value)
+            if n is None:
+                raise SymRaise('IndexError', node, f'no such group {idx.value!r}', where=self.where())
+        if n is None:
+            return Opaque('match-group')
+        if n == 0:
+            return Opaque('whole-match')
+        if not (1 <= n <= rx.ngroups):
+            raise SymRaise('IndexError', node, f'no such group {n}', where=self.where())
+        return GroupStr(f'regex:{m.flags}:' + m.pattern, n, (), '', repr(m.subject)[:40])
+
     def call_bound(self, kind, name, recv, args, kwargs, node) -> V:
+        if kind == 'regexobj':
+            if name in ('match', 'fullmatch', 'search'):
+                return MatchV(recv.pattern, args[0] if args else NONE, 3, recv.flags)
+            if name == 'findall':
+                return MatchV(recv.pattern, args[0] if args else NONE, 0, recv.flags)
+            return Opaque(f'regex.{name}')
+        if kind == 'matchobj':
+            if name == 'group':
+                return self.match_obj_group(recv, args[0] if args else Const(0), node)
+            return Opaque(f'match.{name}')
         if kind == 'str':
             if name == 'join':
                 items = self.iterate(args[0], node)
